@@ -50,6 +50,11 @@ pub fn run_request(web: WebServer, prep: &Prepared) -> std::thread::Result<RawRe
                 rq = rq.insert_header(("Content-Type", ct));
             }
             let req = if chunks.len() <= 1 {
+                // what a real client sends with a body of known length
+                let total: usize = chunks.iter().map(|c| c.len()).sum();
+                if total > 0 {
+                    rq = rq.insert_header(("Content-Length", total.to_string()));
+                }
                 rq.set_payload(chunks.concat()).to_request()
             } else {
                 let (mut sender, pl) = actix_http::h1::Payload::create(true);
